@@ -10,8 +10,8 @@ use crate::Env;
 
 pub fn cases(tier: Tier) -> u64 {
     match tier {
-        Tier::Quick => 160000,
-        Tier::Thorough => 4000000,
+        Tier::Quick => 240000,
+        Tier::Thorough => 5000000,
         Tier::Tiny => 16,
     }
 }
